@@ -212,7 +212,7 @@ class FakeStdin:
         return item
 
 
-def split_messages(text: str) -> List[str]:
+def split_messages(text: str, allow_partial_tail: bool = False) -> List[str]:
     """Independent splitter of an output stream into top-level XML elements (used to read what a connection wrote).
     Returns the list of element texts; raises ValueError if the stream is not a clean sequence of whole elements."""
     import xml.etree.ElementTree as ET
@@ -220,7 +220,11 @@ def split_messages(text: str) -> List[str]:
     rest = text
     while rest.strip():
         rest = rest.lstrip()
-        if rest.startswith("<?xml"):
+        if rest.startswith("<?xml") or (allow_partial_tail and "<?xml".startswith(rest)):
+            if "?>" not in rest:
+                if allow_partial_tail:
+                    return out          # a declaration that is still being written
+                raise ValueError("incomplete declaration at end of stream")
             rest = rest[rest.index("?>") + 2:]
             continue
         # find the end of the first element by incremental parsing
@@ -232,6 +236,8 @@ def split_messages(text: str) -> List[str]:
             raise ValueError("garbage between elements: %r" % rest[:40])
         while i < n:
             if rest[i] == "<":
+                if ">" not in rest[i:]:
+                    break
                 j = rest.index(">", i)
                 tag = rest[i:j + 1]
                 if tag.startswith("</"):
@@ -249,6 +255,8 @@ def split_messages(text: str) -> List[str]:
             else:
                 i += 1
         if end < 0:
+            if allow_partial_tail:
+                return out              # the last message is still being written (a message may be handed over in several writes)
             raise ValueError("incomplete element at end of stream: %r" % rest[:60])
         el = rest[:end]
         ET.fromstring(el)
